@@ -29,7 +29,7 @@ KINDS = {
 }
 
 
-def concrete_frame(pd, case, kind1, kind2):
+def concrete_frame(pd, case, kind1, kind2, kind3="str"):
     import numpy as np
     rows = case["frame"]
     n = len(rows)
@@ -49,15 +49,17 @@ def concrete_frame(pd, case, kind1, kind2):
     df = pd.DataFrame({"rid": pd.Series(range(n), dtype="int64") * 3 + 9000,
                        "v": pd.Series(["val%03d" % i for i in range(n)], dtype="str")})
     df["p1"] = colvals(kind1, [r[0] for r in rows])
-    two = rows and rows[0][1] != NOCOL
-    if two:
+    npc = 1 + sum(1 for j in (1, 2) if rows and len(rows[0]) > j and rows[0][j] != NOCOL)
+    if npc >= 2:
         df["p2"] = colvals(kind2, [r[1] for r in rows])
+    if npc >= 3:
+        df["p3"] = colvals(kind3, [r[2] for r in rows])
     ixk = case.get("index", "range")
     if ixk == "repeated":
         df.index = pd.Index([i // 2 for i in range(n)])            # every label twice: selecting by label is ambiguous
     elif ixk == "shuffled":
         df.index = pd.Index([(i * 3 + 1) % max(n, 1) if n % 3 else n - 1 - i for i in range(n)])
-    return df, (["p1", "p2"] if two else ["p1"])
+    return df, ["p1", "p2", "p3"][:npc]
 
 
 def same_value(kind, got, want):
@@ -89,10 +91,11 @@ def replay_chunk(args):
     try:
         for ci, case in enumerate(cases):
             for scheme in ("hive", "drill"):
-                for (k1, k2) in kinds:
-                    df, pcols = concrete_frame(pd, case, k1, k2)
-                    path = os.path.join(d, "c%d-%s-%s-%s" % (ci, scheme, k1, k2))
-                    sig = {"scheme": scheme, "kinds": [k1] + ([k2] if len(pcols) == 2 else []), "partition_columns": len(pcols),
+                for kk_ in kinds:
+                    k1, k2, k3 = (tuple(kk_) + ("str",))[:3]
+                    df, pcols = concrete_frame(pd, case, k1, k2, k3)
+                    path = os.path.join(d, "c%d-%s-%s-%s-%s" % (ci, scheme, k1, k2, k3))
+                    sig = {"scheme": scheme, "kinds": [k1, k2, k3][:len(pcols)], "partition_columns": len(pcols),
                            "row_labels": case.get("index", "range")}
                     out["evals"] += 1
                     try:
@@ -121,7 +124,7 @@ def replay_chunk(args):
                     # one file per (concrete key tuple, chunk); abstract keys with the same concrete value (bool 1 and 3) merge
                     want = {}
                     for f in case["files"]:
-                        ck = tuple(repr(KINDS[kind](kk)) for kk, kind in zip(f["key"][:len(pcols)], (k1, k2)))
+                        ck = tuple(repr(KINDS[kind](kk)) for kk, kind in zip(f["key"][:len(pcols)], (k1, k2, k3)))
                         want.setdefault((ck, f["part"]), [])
                         want[(ck, f["part"])] = sorted(want[(ck, f["part"])] + [9000 + 3 * (r - 1) for r in f["rows"]])
                     if None in real.values():
@@ -179,7 +182,7 @@ def replay_chunk(args):
                             out["viol"].append((dict(sig, what="value column misaligned with the row"), ci))
                             break
                         okrow = True
-                        for nm, kk, kind in zip(names, r, (k1, k2)):
+                        for nm, kk, kind in zip(names, r, (k1, k2, k3)):
                             wantv = KINDS[kind](kk)
                             gv = row[nm]
                             if scheme == "drill":
@@ -214,6 +217,7 @@ def export(work, tag, **consts):
     cfg = os.path.join(work, "part-%s.cfg" % tag)
     c = {k: ("<- " + v if isinstance(v, str) else v) for k, v in consts.items()}
     c.setdefault("PathTimePrecision", "ns")
+    c.setdefault("KeyVals3", "<- One")
     c.setdefault("IndexKinds", "<- IxAll")
     T.write_cfg(cfg, spec="Spec", constants=c, invariants=["RowsRoutedToTheirKeyDirectory", "MultisetPreserved",
                                                            "NoEmptyFile", "KindPreservedWithMeta", "TextInjective",
@@ -239,7 +243,7 @@ def run(tier, seed):
 def _run(ev, work, thorough):
     # model sensitivity: a path text that drops the sub-microsecond part is not injective
     cfg = os.path.join(work, "part-mut.cfg")
-    T.write_cfg(cfg, spec="Spec", constants=dict(NRows=1, KeyVals="<- K2", KeyVals2="<- One", Offsets="<- Offs4",
+    T.write_cfg(cfg, spec="Spec", constants=dict(NRows=1, KeyVals="<- K2", KeyVals2="<- One", Offsets="<- Offs4", KeyVals3="<- One",
                                                  PathTimePrecision="us", IndexKinds="<- IxRange"),
                 invariants=["TextInjective"], check_deadlock=False)
     mres = T.run_tlc("PartitionMC", cfg, work, timeout=600)
@@ -250,6 +254,12 @@ def _run(ev, work, thorough):
     ev.add_tlc("Partition: one partition column, every frame x row-group split", r1, frames=len(one))
     two, r2 = export(work, "two", NRows=3 if not thorough else 4, KeyVals="K2n", KeyVals2="K2", Offsets="Offs4")
     ev.add_tlc("Partition: two partition columns", r2, frames=len(two))
+    # three partition columns (the property's upper bound): the first may be missing, every frame x three offset lists
+    three, r3 = export(work, "three", NRows=3, KeyVals="K2n", KeyVals2="K2", KeyVals3="K2", Offsets="Offs3",
+                       IndexKinds="IxRange" if not thorough else "IxAll")
+    ev.add_tlc("Partition: three partition columns", r3, frames=len(three))
+    kinds3 = [("int", "str", "bool"), ("cat", "datetime", "numstr"), ("numstr", "int", "float"), ("str", "cat", "int"),
+              ("datetime_ns", "bool", "str"), ("float", "numstr", "cat")]
     kinds1 = [("int", "str"), ("float", "str"), ("bool", "str"), ("datetime", "str"), ("datetime_ns", "str"), ("str", "str"), ("numstr", "str"), ("cat", "str")]
     # ("int", "numstr") / ("numstr", "int"): two columns of DIFFERENT kinds whose directory texts coincide (42 and "42")
     kinds2 = [("int", "str"), ("str", "numstr"), ("datetime", "bool"), ("cat", "int"), ("float", "cat"), ("datetime_ns", "int"),
@@ -266,6 +276,10 @@ def _run(ev, work, thorough):
         c = two[i::32]
         if c:
             jobs.append((len(jobs), c, [kinds2[(i + j) % len(kinds2)] for j in range(2)] if not thorough else kinds2, base))
+    for i in range(48):
+        c = three[i::48]
+        if c:
+            jobs.append((len(jobs), c, [kinds3[i % len(kinds3)]] if not thorough else kinds3, base))
     results = pmap(replay_chunk, jobs, job_timeout=900)
     verd = Verdicts(PID, os.path.join(HOME, "replays"))
     for j, r in zip(jobs, results):
@@ -277,12 +291,12 @@ def _run(ev, work, thorough):
         ev.evaluations += r["evals"]
         for sig, ci in r["viol"]:
             verd.add(sig, {"case": j[1][ci]}, cost=len(j[1][ci]["frame"]))
-    for c in one + two:
+    for c in one + two + three:
         if len(c["files"]) > 1:
             ev.nontrivial.add(json.dumps(c, sort_keys=True))
-    ev.extra["frames"] = len(one) + len(two)
+    ev.extra["frames"] = len(one) + len(two) + len(three)
     ev.rule = ("frames = every assignment of partition keys (incl. missing) to the rows x every row-group offset list TLC "
-               "enumerates, for one and two partition columns; each written in hive and drill layout with partition value "
+               "enumerates, for one, two and three partition columns; each written in hive and drill layout with partition value "
                "kinds rotated over the cases (thorough: every kind for every case); non-trivial = distinct frames that "
                "produce more than one part file")
     ev.exhaustive = True
